@@ -98,6 +98,8 @@ def scenarios(rng, quick):
         unit = rng.choice(["d", "w"])
         step = inc * (7 if unit == "w" else 1)
         l = f + rng.randrange(0, 30) * step
+        if not (chainmod.LDN_1601 + 10 <= l < hi + 2000):
+            l = f       # keep the bound inside the years the tools accept
         sc.append(dict(kind="lin", args=[fmtn(nota, f), "%d%s" % (inc, unit), fmtn(nota, l)], first=f, inc=step, last=l, skip=[], cfl=False, wd0=5, dec="date", nota=nota))
     # no increment given: defaults to 1d; first > last gives nothing
     for i in range(n // 10):
